@@ -128,15 +128,15 @@ class C10Stream(A.ActorStream):
         #      stop() / cancel_and_await() / Task.cancel() requests recorded for it (a waiter that gives up -- wait() or
         #      run() cancelled or timed out -- must not cancel the service's tasks)
         requested = {}
-        for e in log:
+        for i, e in enumerate(log):
             if e[1] == "cancel":
                 tg = e[3]
             elif e[1] == "stopcall":
                 tg = e[5]
             elif e[1] == "cawcall":
                 tg = e[4] or []
-            elif e[1] == "cancel1":
-                tg = [e[2]]
+            elif e[1] == "cancel1":        # Task.cancel() of a finished task does nothing
+                tg = [] if (e[2] in fin_at and fin_at[e[2]][0] < i) else [e[2]]
             else:
                 continue
             for t in tg:
